@@ -9,7 +9,7 @@ irrelevant; the variant run must not raise and must reproduce all four output ta
 
   PERM    permutations of the five required columns (all 120 in thorough, a sample in quick,
           always including: full reversal, Date first, MinTemp<->MaxTemp swapped, Precipitation<->ReferenceET swapped)
-  EXTRA   1 or 3 unrelated extra columns (numeric 'Wind'/'Tdew'/'Rs' or string 'Station') inserted at
+  EXTRA   1 or 3 unrelated extra columns (numeric 'Wind'/'Tdew'/'Rs', numeric with missing values 'WindGaps', or string 'Station') inserted at
           first / middle / last position, the five required columns otherwise in canonical order;
           plus extra columns combined with sampled permutations
   INDEX   same records, same row order, different index: RangeIndex offset by 1000, shuffled
@@ -154,6 +154,11 @@ def make_table(cfg, spec):
     n = len(w)
     extra_data = {"Wind": np.linspace(0.5, 6.0, n), "Tdew": np.linspace(-3.0, 18.0, n), "Rs": 200.0 + 50.0 * np.sin(np.arange(n) / 20.0),
                   "Station": np.array(["st%03d" % (i % 7) for i in range(n)], dtype=object)}
+    # an unrelated column with gaps (missing observations inside the simulated window)
+    gaps = np.linspace(1.0, 9.0, n)
+    gaps[n // 3: n // 3 + 5] = np.nan
+    gaps[(2 * n) // 3] = np.nan
+    extra_data["WindGaps"] = gaps
     for name, pos in spec.get("extra", []):
         k = {"first": 0, "last": len(cols), "middle": len(cols) // 2}[pos]
         cols.insert(k, name)
@@ -300,6 +305,8 @@ def main():
             if not quick:
                 extras.append([("Wind", "first"), ("Station", "last")])
                 extras.append([("Tdew", "middle"), ("Rs", "last")])
+            extras.append([("WindGaps", "last")])
+            extras.append([("WindGaps", "first"), ("Station", "last")])
             for ex in extras:
                 V.append({"cls": "EXTRA", "extra": ex})
             for kind in ("range1000", "shuffled", "datetime", "string"):
